@@ -22,6 +22,8 @@ def run(ctx):
             {"kind": "R", "api": "c", "mode": "raise", "limit": limit, "rows": table, "close": True},
             {"kind": "R", "api": "c", "mode": "continue", "limit": limit, "rows": table, "close": True},
             {"kind": "R", "api": "v", "mode": "raise", "limit": limit, "stop": limit, "rows": table},
+            # a second pass over the same data with the same Reader object (the first one abandoned after a row)
+            {"kind": "R", "api": "c", "mode": "yield", "limit": limit, "rows": table, "close": True, "pre": 1},
         ]
 
     max_rows = 5 if ctx.tier == "quick" else 6
